@@ -87,7 +87,7 @@ theorem sysSeccomp_preserves (id : FilterId) (op flags : Nat) (uargs : Option Pr
     cases hk with
     | declined e _ _ => exact ⟨hcl, hcov⟩
     | refused t _ _ _ => exact ⟨hcl, hcov⟩
-    | attachedOne p _ _ _ _ _ =>
+    | attachedOne p _ _ _ _ _ _ =>
       refine ⟨hcl, fun t ht => ?_⟩
       by_cases htc : t = (schedStep w).cur
       · subst htc
@@ -95,23 +95,26 @@ theorem sysSeccomp_preserves (id : FilterId) (op flags : Nat) (uargs : Option Pr
         exact List.mem_cons_of_mem _ (hcov _ hcl)
       · rw [World.upd_thr_ne _ _ _ _ htc]
         exact hcov t ht
-    | attachedAll p _ _ _ _ _ _ =>
+    | attachedAll p _ _ _ _ _ _ _ =>
       refine ⟨hcl, fun t ht => ?_⟩
       have ht' : t ∈ w.live := by simpa [schedStep_live] using ht
       simp only [ht', if_true]
       exact List.mem_cons_of_mem _ (hcov _ hcl)
   · unfold sysSeccomp
-    by_cases hop0 : op = SECCOMP_SET_MODE_STRICT
-    · simp only [hop0, if_true]
-      split
-      · exact ⟨hcl, hcov⟩
-      · refine ⟨hcl, fun t ht => ?_⟩
-        by_cases htc : t = (schedStep w).cur
-        · subst htc; simp only [World.upd_thr_self]; exact hcov _ hcl
-        · rw [World.upd_thr_ne _ _ _ _ htc]; exact hcov t ht
-    · have : ¬ op = SECCOMP_SET_MODE_FILTER := hop
-      simp only [hop0, this, if_false]
-      exact ⟨hcl, hcov⟩
+    simp only
+    split
+    · exact ⟨hcl, hcov⟩
+    · by_cases hop0 : op = SECCOMP_SET_MODE_STRICT
+      · rw [if_pos hop0]
+        split
+        · exact ⟨hcl, hcov⟩
+        · refine ⟨hcl, fun t ht => ?_⟩
+          by_cases htc : t = (schedStep w).cur
+          · subst htc; simp only [World.upd_thr_self]; exact hcov _ hcl
+          · rw [World.upd_thr_ne _ _ _ _ htc]; exact hcov t ht
+      · have : ¬ op = SECCOMP_SET_MODE_FILTER := hop
+        rw [if_neg hop0, if_neg this]
+        exact ⟨hcl, hcov⟩
 
 theorem sysPrctl_preserves (id : FilterId) (o a1 a2 a3 a4 : Nat) (w : World) (hwf : WF w) (h : Covered id w) :
     WF (sysPrctl o a1 a2 a3 a4 w).2.2 ∧ Covered id (sysPrctl o a1 a2 a3 a4 w).2.2 := by
@@ -215,11 +218,11 @@ theorem no_tsync_touches_caller_only (U : Unsupported) (filter : Filter) (w : Wo
     cases hk with
     | declined e _ _ => simpa [schedStep_thr] using hpre
     | refused t' _ _ _ => simpa [schedStep_thr] using hpre
-    | attachedOne q _ _ _ _ _ =>
+    | attachedOne q _ _ _ _ _ _ =>
       simp only
       rw [World.upd_thr_ne _ _ _ _ ht]
       simpa [schedStep_thr] using hpre
-    | attachedAll q _ _ _ hts' _ _ => exact absurd hts hts'
+    | attachedAll q _ _ _ _ hts' _ _ => exact absurd hts hts'
 
 /-! ### non-vacuity: four threads, thread-sync load from thread 2, then a clone and more activity -/
 
